@@ -218,8 +218,20 @@ func discard(reader io.Reader) error {
 	// We don't want to get stuck throwing data away forever, so limit how much
 	// we're willing to do here.
 	lr := &io.LimitedReader{R: reader, N: discardLimit}
-	_, err := io.Copy(io.Discard, lr)
-	return err
+	if _, err := io.Copy(io.Discard, lr); err != nil {
+		return err
+	}
+	if lr.N == 0 {
+		// We've thrown away exactly as much as we're willing to. If that was all
+		// there is, the reader may still be waiting to tell us so: HTTP trailers
+		// only become available once the body has reported io.EOF, which it may
+		// do along with the last bytes or on a read of its own.
+		var probe [1]byte
+		if _, err := reader.Read(probe[:]); err != nil && !errors.Is(err, io.EOF) {
+			return err
+		}
+	}
+	return nil
 }
 
 func validateRequestURL(uri string) *Error {
